@@ -403,6 +403,22 @@ pub fn layout(ws: &[String], compact: bool) -> String {
     s
 }
 
+/// the words joined with single blanks, except that a minus sign stands directly before a following number (`x -1`,
+/// `END -1`, `a - -1`): the same tokens (a `-` is always an operator token of its own), another layout
+pub fn layout_sign_glued(ws: &[String]) -> String {
+    let mut s = String::new();
+    for (i, w) in ws.iter().enumerate() {
+        if i > 0 {
+            let prev = ws[i - 1].as_str();
+            // never next to another minus: `--` would start a comment
+            let glue = prev == "-" && w.chars().next().map_or(false, |c| c.is_ascii_digit()) && !s[..s.len() - 1].ends_with('-');
+            if !glue { s.push(' '); }
+        }
+        s.push_str(w);
+    }
+    s
+}
+
 fn type_of_name(name: &str) -> Option<ValueType> {
     match name.to_lowercase().as_str() {
         "int" => Some(ValueType::Int),
@@ -617,7 +633,8 @@ fn oracle(run: &mut Run, e: &E, through_select: bool) {
     // a third spelling: the minimal form on broken lines (operators at line ends, operands and signs in column 0)
     let seed = min_text.bytes().fold(0xcbf29ce484222325u64, |h, b| (h ^ b as u64).wrapping_mul(0x100000001b3));
     let broken_text = layout_broken(&words(e, Style::Minimal), seed);
-    for (which, text) in [("minimal", &min_text), ("full", &full_text), ("minimal, on broken lines,", &broken_text)].iter() {
+    let glued_text = layout_sign_glued(&words(e, Style::Minimal));
+    for (which, text) in [("minimal", &min_text), ("full", &full_text), ("minimal, on broken lines,", &broken_text), ("minimal, signs directly before numbers,", &glued_text)].iter() {
         match parse_text_tree(text) {
             Ok(got) => {
                 if got != want {
@@ -847,6 +864,26 @@ pub fn run(p: &Params) -> Run {
             run.fail(format!("expression `{}`", text), "harness:tokenize", "a printed reference expression does not tokenise".to_owned());
         }
         oracle(&mut run, &e, i % 8 == 0);
+    }
+
+    // every way an operand can END, followed by a binary minus and a number (and by `- -1`): the sign-glued spelling of the oracle
+    // writes them `X -1` / `X - -1` — a tokenizer that reads `-1` as a literal "in operand position" must know every operand end
+    {
+        let col = |n: &str| E::Col(vec![n.to_owned()]);
+        let minus = BinOp::Sym(Operator::Single('-'));
+        let ends: Vec<E> = vec![
+            col("x"), E::Col(vec!["t".to_owned(), "x".to_owned()]), E::Int(7), E::Float(2.5), E::Str("s".to_owned()), E::Null, E::True, E::False,
+            E::Paren(Box::new(col("a"))), E::Index(Box::new(col("a")), Box::new(E::Int(1))), E::Cast(Box::new(col("x")), "int".to_owned()),
+            E::Call("abs".to_owned(), vec![col("x")]), E::Call("count".to_owned(), vec![E::Star]), E::CountDistinct("count".to_owned(), vec![col("x")]),
+            E::Array("array".to_owned(), vec![E::Int(1), E::Int(2)]), E::Extract("hour".to_owned(), Box::new(col("c"))),
+            E::Case(vec![(col("a"), col("b"))], Box::new(col("c"))), E::Case(vec![(col("a"), E::Int(1))], Box::new(E::Int(2))),
+        ];
+        for x in &ends {
+            for rhs in [E::Int(1), E::Float(0.5), E::Neg(Box::new(E::Int(1)))] {
+                let e = E::Bin(minus.clone(), Box::new(x.clone()), Box::new(rhs));
+                if well_formed(&e) { run.count("operand-end-minus-number"); oracle(&mut run, &e, true); }
+            }
+        }
     }
 
     // malformed stream
